@@ -34,6 +34,11 @@ struct Case {
     real_fs: Vec<String>,
     /// shim directives
     plan: Vec<String>,
+    /// spelling of the flags: 0 short separate (-f X), 1 long separate (--filename X),
+    /// 2 long attached (--filename=X), 3 short attached (-fX)
+    spelling: u8,
+    /// put the flags after the positional expression
+    flags_last: bool,
     /// labels for coverage cells (do not influence execution)
     expr_class: String,
     input_class: String,
@@ -53,6 +58,7 @@ fn case_to_json(c: &Case) -> Value {
         "expr_hex": hex(&c.expr), "expr_text": String::from_utf8_lossy(&c.expr), "expr_via": c.expr_via,
         "input_hex": hex(&c.input), "input_text": String::from_utf8_lossy(&c.input), "input_via": c.input_via,
         "unquoted": c.unquoted, "ast": c.ast, "illegal": c.illegal, "real_fs": c.real_fs, "plan": c.plan,
+        "spelling": c.spelling, "flags_last": c.flags_last,
         "expr_class": c.expr_class, "input_class": c.input_class,
     })
 }
@@ -83,6 +89,8 @@ fn case_from_json(v: &Value) -> Result<Case, String> {
         illegal: s("illegal"),
         real_fs: list("real_fs"),
         plan: list("plan"),
+        spelling: v.get("spelling").and_then(|x| x.as_u64()).unwrap_or(0) as u8,
+        flags_last: v.get("flags_last").and_then(|x| x.as_bool()).unwrap_or(false),
         expr_class: s("expr_class"),
         input_class: s("input_class"),
     })
@@ -248,12 +256,28 @@ fn run_case(env: &Env, c: &Case, tag: &str) -> Result<Obs, String> {
     let dir = format!("{}/c_{}", env.work, tag);
     let _ = std::fs::remove_dir_all(&dir);
     std::fs::create_dir_all(&dir).map_err(|e| format!("mkdir {}: {}", dir, e))?;
-    let mut argv: Vec<String> = vec![];
+    let mut flags: Vec<String> = vec![];
+    let long = c.spelling == 1 || c.spelling == 2;
+    let attached = c.spelling == 2 || c.spelling == 3;
+    let opt = |flags: &mut Vec<String>, short: &str, long_name: &str, val: &str| {
+        match (long, attached) {
+            (false, false) => {
+                flags.push(short.to_string());
+                flags.push(val.to_string());
+            }
+            (true, false) => {
+                flags.push(long_name.to_string());
+                flags.push(val.to_string());
+            }
+            (true, true) => flags.push(format!("{}={}", long_name, val)),
+            (false, true) => flags.push(format!("{}{}", short, val)),
+        }
+    };
     if c.unquoted {
-        argv.push("-u".into());
+        flags.push(if long { "--unquoted".into() } else { "-u".into() });
     }
     if c.ast {
-        argv.push("--ast".into());
+        flags.push("--ast".into());
     }
     let expr_path = format!("{}/expr.txt", dir);
     let in_path = format!("{}/in.json", dir);
@@ -264,8 +288,7 @@ fn run_case(env: &Env, c: &Case, tag: &str) -> Result<Obs, String> {
         } else if !c.real_fs.iter().any(|x| x == "expr_missing") {
             std::fs::write(&expr_path, &c.expr).map_err(|e| e.to_string())?;
         }
-        argv.push("-e".into());
-        argv.push(expr_path.clone());
+        opt(&mut flags, "-e", "--expr-file", &expr_path);
     }
     if c.input_via == "file" {
         if c.real_fs.iter().any(|x| x == "input_is_dir") {
@@ -273,16 +296,21 @@ fn run_case(env: &Env, c: &Case, tag: &str) -> Result<Obs, String> {
         } else if !c.real_fs.iter().any(|x| x == "input_missing") {
             std::fs::write(&in_path, &c.input).map_err(|e| e.to_string())?;
         }
-        argv.push("-f".into());
-        argv.push(in_path.clone());
+        opt(&mut flags, "-f", "--filename", &in_path);
     }
+    let mut positional: Vec<String> = vec![];
     if (c.expr_via == "argv" && c.illegal != "no_expr") || c.illegal == "both_expr_sources" {
         let t = String::from_utf8(c.expr.clone()).map_err(|_| "argv expression must be UTF-8".to_string())?;
         if t.contains('\0') {
             return Err("argv expression must not contain NUL".into());
         }
-        argv.push(t);
+        positional.push(t);
     }
+    let argv: Vec<String> = if c.flags_last {
+        positional.into_iter().chain(flags.into_iter()).collect()
+    } else {
+        flags.into_iter().chain(positional.into_iter()).collect()
+    };
     let trace_path = format!("{}/trace.txt", dir);
     let stdin_path = format!("{}/stdin.bin", dir);
     let mut cmd = Command::new(env.jp);
@@ -730,6 +758,8 @@ fn gen_case(seed: u64) -> Case {
         illegal: String::new(),
         real_fs: vec![],
         plan: vec![],
+        spelling: *r.pick(&[0u8, 0, 0, 1, 2, 3]),
+        flags_last: r.chance(1, 4),
         expr_class: expr_class.into(),
         input_class: input_class.into(),
     };
@@ -784,6 +814,8 @@ fn grid() -> Vec<Case> {
                                     illegal: String::new(),
                                     real_fs: vec![],
                                     plan: vec![],
+                                    spelling: 0,
+                                    flags_last: false,
                                     expr_class: pc.into(),
                                     input_class: ic.into(),
                                 };
@@ -845,6 +877,8 @@ fn grid() -> Vec<Case> {
             illegal: ill.into(),
             real_fs: vec![],
             plan: vec![],
+            spelling: 0,
+            flags_last: false,
             expr_class: "valid".into(),
             input_class: "valid".into(),
         });
